@@ -254,3 +254,17 @@ Proof.
     destruct (step_keys_kmono ks (kset s T k v) T tr s' Hok H) as [_ [_ F]].
     rewrite F by (right; auto). rewrite kget_kset_eq. auto.
 Qed.
+
+Lemma first_gone_spec : forall s T ks, existsb (gone_key s T) ks = true ->
+  exists k0, first_gone s T ks = [k0] /\ In k0 ks /\ gone_key s T k0 = true.
+Proof.
+  intros s T ks H. unfold first_gone. destruct (find (gone_key s T) ks) as [k0 |] eqn:Fd.
+  - apply find_some in Fd. exists k0. tauto.
+  - apply existsb_exists in H. destruct H as [k [K1 K2]]. rewrite (find_none _ _ Fd k K1) in K2. discriminate.
+Qed.
+Lemma first_gone_In : forall s T ks k, In k (first_gone s T ks) -> In k ks.
+Proof.
+  intros s T ks k H. unfold first_gone in H. destruct (find (gone_key s T) ks) as [k0 |] eqn:Fd; [| destruct H].
+  destruct H as [<- | []]. apply find_some in Fd. tauto.
+Qed.
+
